@@ -98,19 +98,31 @@ def decl_programs(count, seed):
 
 # ------------------------------------------------------------- (ii) histories
 def _omp_step(kind):
+    '''final step of a history: a directive transformation on the first loop
+    that accepts it (OpenMP parallel do / parallel + do) or OpenACC kernels
+    around the routine body'''
     def fn(r):
         from psyclone.psyir.nodes import Loop
-        if kind == "omp":
-            from psyclone.transformations import OMPParallelLoopTrans
-            OMPParallelLoopTrans().apply(r.walk(Loop)[0])
-        elif kind == "acc":
+        from psyclone.psyir.transformations import TransformationError
+        if kind == "acc":
             from psyclone.psyir.transformations import ACCKernelsTrans
             ACCKernelsTrans().apply(r.children[:])
-        else:
-            from psyclone.transformations import OMPLoopTrans, OMPParallelTrans
-            lp = r.walk(Loop)[0]
-            OMPLoopTrans().apply(lp)
-            OMPParallelTrans().apply(lp.parent.parent)
+            return
+        from psyclone.transformations import (OMPLoopTrans, OMPParallelTrans,
+                                              OMPParallelLoopTrans)
+        err = TransformationError("no loop")
+        for lp in r.walk(Loop):
+            try:
+                if kind == "omp":
+                    OMPParallelLoopTrans().apply(lp)
+                else:
+                    OMPLoopTrans().validate(lp)
+                    OMPLoopTrans().apply(lp)
+                    OMPParallelTrans().apply(lp.parent.parent)
+                return
+            except TransformationError as exc:
+                err = exc
+        raise err
     return fn
 
 
@@ -185,12 +197,21 @@ def tag_symbols(root):
     the number of symbols renamed.'''
     from psyclone.psyir.nodes import ScopingNode
     from psyclone.psyir.symbols import ContainerSymbol, RoutineSymbol
+    from psyclone.psyir.symbols import UnsupportedFortranType
     n = 0
+    # names that occur in declarations kept as text stay as they are
+    verbatim = set()
+    for node in root.walk(ScopingNode):
+        for sym in node.symbol_table.symbols:
+            dt = getattr(sym, "datatype", None)
+            if isinstance(dt, UnsupportedFortranType):
+                verbatim.update(t.lower() for t in re.findall(r"[A-Za-z_]\w*", dt.declaration))
     for node in root.walk(ScopingNode):
         table = node.symbol_table
         order = list(table._symbols.values())       # pylint: disable=protected-access
         for sym in order:
-            if isinstance(sym, (ContainerSymbol, RoutineSymbol)):
+            if isinstance(sym, (ContainerSymbol, RoutineSymbol)) or \
+                    sym.name.lower() in verbatim:
                 continue
             try:
                 n += 1
@@ -202,7 +223,7 @@ def tag_symbols(root):
     return n
 
 
-_TOK = re.compile(r"[A-Za-z_]\w*|\d+\.?\d*(?:[eEdD][-+]?\d+)?|\S")
+_TOK = re.compile(r"[A-Za-z]\w*|\d+\.?\d*(?:[eEdD][-+]?\d+)?|\S")
 _UNIT = re.compile(r"^\s*(?:(?:pure|elemental|impure|recursive)\s+)*"
                    r"(module|program|subroutine|function)\s+(\w+)", re.I)
 _ENDUNIT = re.compile(r"^\s*end\s+(module|program|subroutine|function)\b", re.I)
@@ -236,7 +257,7 @@ def identity_pairs(text_a, text_b):
             if x == y:
                 if x[0].isalpha() and re.fullmatch(r"zq\d+x", x, re.I):
                     return None
-                if (x[0].isalpha() or x[0] == "_") and stack:
+                if x[0].isalpha() and stack:
                     res[stack[-1]].add((y.lower(), x.lower()))
                 continue
             if not re.fullmatch(r"zq\d+x", y):
